@@ -94,23 +94,31 @@ const ssOp2KeyHex = "5d6e7f8091a2b3c4d5e6f708192a3b4c5d6e7f8091a2b3c4d5e6f708192
 
 // ---------------------------------------------------------------- input
 type ssOp struct {
-	Op   string `json:"op"`             // fund delegate undelegate redelegate empty jail unjail slash endblock advance reward setwithdraw wdoff
+	Op   string `json:"op"`             // fund delegate undelegate redelegate empty jail unjail slash endblock advance reward setwithdraw wdoff mincomm
 	Who  int    `json:"who,omitempty"`  // actor
 	Val  int    `json:"val,omitempty"`  // validator
 	Dst  int    `json:"dst,omitempty"`  // redelegate destination
 	Amt  string `json:"amt,omitempty"`  // amount; undelegate: "all" = the whole delegation (by shares)
 	To   int    `json:"to,omitempty"`   // setwithdraw target
-	Bp   int    `json:"bp,omitempty"`   // slash fraction in basis points
+	Bp   int    `json:"bp,omitempty"`   // slash fraction / mincomm rate in basis points
 	Back int64  `json:"back,omitempty"` // slash: infraction height = current height - back
 	Dt   int64  `json:"dt,omitempty"`   // advance: seconds
 	Dh   int64  `json:"dh,omitempty"`   // advance: heights
 }
 
 type ssCall struct {
-	M     string `json:"m"`               // delegate undelegate redelegate cancel withdraw setwithdraw claim commission transfer
+	M     string `json:"m"`               // delegate undelegate redelegate cancel withdraw setwithdraw claim commission transfer createval
 	Val   int    `json:"val"`             // validator (source); 3 = an address without a validator record
 	Dst   int    `json:"dst,omitempty"`   // redelegate destination
-	Amt   string `json:"amt,omitempty"`   // decimal | all all+1 all-1 bal bal+1 entry entry+1 vtok max   (resolved on the state the script built)
+	Amt   string `json:"amt,omitempty"`   // number expression (stakecreate.go): decimal | A^B | all bal entry vtok max, joined by + and -: all+1, bal+2^64, 2^255 (resolved on the state the script built)
+	VS    string `json:"vs,omitempty"`    // the validator argument as a string: "" its address | malformed | foreign | empty | acc | upper
+	DS    string `json:"ds,omitempty"`    // ... the redelegation destination
+	ToS   string `json:"to_s,omitempty"`  // setwithdraw: the withdrawer as a string: "" | malformed | foreign | empty | valoper | upper
+	HHi   bool   `json:"height_hi,omitempty"` // cancel: the precompile is given creation height + 2^64 (no native message can carry it: recorded, nothing demanded)
+	Rcv   string `json:"rcv,omitempty"`   // transfer: receiver "" (an address) | empty | long
+	Memo  string `json:"memo,omitempty"`  // transfer: memo "" | long
+	Tmo   string `json:"tmo,omitempty"`   // transfer: timeout "" (height 1-1000, no timestamp) | zero (neither) | passed (height 1-1) | max (2^64-1 everywhere) | stamp (timestamp only, 2^63)
+	CV    *ssCreate `json:"cv,omitempty"` // createval: the arguments
 	Entry int    `json:"entry,omitempty"` // cancel: index of the signer's unbonding entry whose creation height is passed; -1 = a height without an entry
 	To    int    `json:"to,omitempty"`    // setwithdraw target
 	Max   uint32 `json:"max,omitempty"`   // claimRewards: maxRetrieve
@@ -358,6 +366,14 @@ func (e *ssEnv) apply(op ssOp) (err error) {
 		p := dk.GetParams(e.Ctx)
 		p.WithdrawAddrEnabled = false
 		return dk.SetParams(e.Ctx, p)
+	case "mincomm":
+		// governance sets the staking parameter MinCommissionRate (basis points)
+		if op.Bp < 0 || op.Bp > 10000 {
+			return fmt.Errorf("bad rate")
+		}
+		p := sk.GetParams(e.Ctx)
+		p.MinCommissionRate = sdk.NewDecWithPrec(int64(op.Bp), 4)
+		return sk.SetParams(e.Ctx, p)
 	}
 	return fmt.Errorf("unknown op %q", op.Op)
 }
@@ -478,6 +494,10 @@ type ssResolved struct {
 	Amt    string `json:"amt"`
 	Height int64  `json:"height"` // cancel: absolute creation height passed
 	Claim  []int  `json:"claim,omitempty"`
+	Val    string `json:"val_arg"`           // the validator argument as passed on both routes
+	Dst    string `json:"dst_arg,omitempty"` // the destination argument
+	To     string `json:"to_arg,omitempty"`  // the withdrawer argument
+	CV     *ssCreateRes `json:"cv,omitempty"`
 }
 
 func (e *ssEnv) resolve(in ssInput, pre ssSnap) (ssResolved, error) {
@@ -500,44 +520,71 @@ func (e *ssEnv) resolve(in ssInput, pre ssSnap) (ssResolved, error) {
 	if v >= 0 && v < ssNVal {
 		tok, vtok = get(pre.Tokens[v]), get(pre.Vals[v].Tokens)
 	}
-	one := big.NewInt(1)
-	var a *big.Int
-	switch c.Amt {
-	case "":
-		a = big.NewInt(0)
-	case "all":
-		a = tok
-	case "all+1":
-		a = new(big.Int).Add(tok, one)
-	case "all-1":
-		a = new(big.Int).Sub(tok, one)
-	case "bal":
-		a = get(pre.Bal)
-	case "bal+1":
-		a = new(big.Int).Add(get(pre.Bal), one)
-	case "entry":
-		a = entryBal
-	case "entry+1":
-		a = new(big.Int).Add(entryBal, one)
-	case "vtok":
-		a = vtok
-	case "max":
-		a = abi.MaxUint256
-	default:
-		x, ok := new(big.Int).SetString(c.Amt, 10)
-		if !ok {
-			return r, fmt.Errorf("bad amount %q", c.Amt)
+	a, err := ssU256(c.Amt, map[string]*big.Int{"all": tok, "bal": get(pre.Bal), "entry": entryBal, "vtok": vtok, "max": abi.MaxUint256})
+	if err != nil {
+		return r, err
+	}
+	if r.Val, err = ssAddrString(e.valAddr(c.Val), c.VS); err != nil {
+		return r, err
+	}
+	if r.Dst, err = ssAddrString(e.valAddr(c.Dst), c.DS); err != nil {
+		return r, err
+	}
+	if r.To, err = ssAccString(e.target(c.To), c.ToS); err != nil {
+		return r, err
+	}
+	if c.M == "commission" {
+		// the named account is the validator whose operator is the signer
+		if r.Val, err = ssAddrString(sdk.ValAddress(e.acc[in.Signer]), c.VS); err != nil {
+			return r, err
 		}
-		a = x
 	}
-	if a.Sign() < 0 {
-		a = big.NewInt(0)
-	}
-	if a.Cmp(abi.MaxUint256) > 0 {
-		return r, fmt.Errorf("amount above 2^256-1")
+	if c.M == "createval" {
+		if r.CV, err = e.resolveCreate(in, pre); err != nil {
+			return r, err
+		}
 	}
 	r.Amt = a.String()
 	return r, nil
+}
+
+func ssReceiver(kind string) string {
+	switch kind {
+	case "empty":
+		return ""
+	case "long":
+		return "cosmos1" + strings.Repeat("q", 3000)
+	}
+	return "cosmos1receiver0"
+}
+
+func ssTimeoutHeight(kind string) clienttypes.Height {
+	switch kind {
+	case "zero", "stamp":
+		return clienttypes.NewHeight(0, 0)
+	case "passed":
+		return clienttypes.NewHeight(1, 1)
+	case "max":
+		return clienttypes.NewHeight(^uint64(0), ^uint64(0))
+	}
+	return clienttypes.NewHeight(1, 1000)
+}
+
+func ssTimeoutStamp(kind string) uint64 {
+	switch kind {
+	case "max":
+		return ^uint64(0)
+	case "stamp":
+		return 1 << 63
+	}
+	return 0
+}
+
+func ssMemo(kind string) string {
+	if kind == "long" {
+		return strings.Repeat("m", 40000)
+	}
+	return ""
 }
 
 func ssChan(i int) string {
@@ -556,32 +603,39 @@ func (e *ssEnv) pack(in ssInput, r ssResolved) (to common.Address, data []byte, 
 	c := in.Call
 	who := common.BytesToAddress(e.acc[in.Signer])
 	amt := bigOf(r.Amt)
-	vs := e.valAddr(c.Val).String()
+	vs := r.Val
 	switch c.M {
 	case "delegate", "undelegate":
 		data, err = e.sABI.Pack(c.M, who, vs, amt)
 		to = evmAddr[aPS]
 	case "redelegate":
-		data, err = e.sABI.Pack("redelegate", who, vs, e.valAddr(c.Dst).String(), amt)
+		data, err = e.sABI.Pack("redelegate", who, vs, r.Dst, amt)
 		to = evmAddr[aPS]
 	case "cancel":
-		data, err = e.sABI.Pack("cancelUnbondingDelegation", who, vs, amt, big.NewInt(r.Height))
+		h := big.NewInt(r.Height)
+		if c.HHi {
+			h = new(big.Int).Add(h, new(big.Int).Lsh(big.NewInt(1), 64))
+		}
+		data, err = e.sABI.Pack("cancelUnbondingDelegation", who, vs, amt, h)
+		to = evmAddr[aPS]
+	case "createval":
+		data, err = e.packCreate(in, r.CV)
 		to = evmAddr[aPS]
 	case "withdraw":
 		data, err = e.dABI.Pack("withdrawDelegatorRewards", who, vs)
 		to = evmAddr[aPD]
 	case "setwithdraw":
-		data, err = e.dABI.Pack("setWithdrawAddress", who, e.target(c.To).String())
+		data, err = e.dABI.Pack("setWithdrawAddress", who, r.To)
 		to = evmAddr[aPD]
 	case "claim":
 		data, err = e.dABI.Pack("claimRewards", who, c.Max)
 		to = evmAddr[aPD]
 	case "commission":
 		// the named account is the validator whose operator is the signer
-		data, err = e.dABI.Pack("withdrawValidatorCommission", sdk.ValAddress(e.acc[in.Signer]).String())
+		data, err = e.dABI.Pack("withdrawValidatorCommission", vs)
 		to = evmAddr[aPD]
 	case "transfer":
-		data, err = e.iABI.Pack("transfer", "transfer", ssChan(c.Chan), utils.BaseDenom, amt, who, "cosmos1receiver0", clienttypes.NewHeight(1, 1000), uint64(0), "")
+		data, err = e.iABI.Pack("transfer", "transfer", ssChan(c.Chan), utils.BaseDenom, amt, who, ssReceiver(c.Rcv), ssTimeoutHeight(c.Tmo), ssTimeoutStamp(c.Tmo), ssMemo(c.Memo))
 		to = paICS
 	default:
 		err = fmt.Errorf("unknown method %q", c.M)
@@ -594,20 +648,27 @@ func (e *ssEnv) natives(in ssInput, r ssResolved) ([]sdk.Msg, []int, error) {
 	c := in.Call
 	who := e.acc[in.Signer]
 	coin := ssCoin(bigOf(r.Amt))
-	va := e.valAddr(c.Val)
+	// the messages carry the same strings the precompile is given (the constructors of the SDK do nothing but String())
+	ws, va := who.String(), r.Val
 	switch c.M {
 	case "delegate":
-		return []sdk.Msg{stakingtypes.NewMsgDelegate(who, va, coin)}, nil, nil
+		return []sdk.Msg{&stakingtypes.MsgDelegate{DelegatorAddress: ws, ValidatorAddress: va, Amount: coin}}, nil, nil
 	case "undelegate":
-		return []sdk.Msg{stakingtypes.NewMsgUndelegate(who, va, coin)}, nil, nil
+		return []sdk.Msg{&stakingtypes.MsgUndelegate{DelegatorAddress: ws, ValidatorAddress: va, Amount: coin}}, nil, nil
 	case "redelegate":
-		return []sdk.Msg{stakingtypes.NewMsgBeginRedelegate(who, va, e.valAddr(c.Dst), coin)}, nil, nil
+		return []sdk.Msg{&stakingtypes.MsgBeginRedelegate{DelegatorAddress: ws, ValidatorSrcAddress: va, ValidatorDstAddress: r.Dst, Amount: coin}}, nil, nil
 	case "cancel":
-		return []sdk.Msg{stakingtypes.NewMsgCancelUnbondingDelegation(who, va, r.Height, coin)}, nil, nil
+		return []sdk.Msg{&stakingtypes.MsgCancelUnbondingDelegation{DelegatorAddress: ws, ValidatorAddress: va, Amount: coin, CreationHeight: r.Height}}, nil, nil
 	case "withdraw":
-		return []sdk.Msg{distrtypes.NewMsgWithdrawDelegatorReward(who, va)}, nil, nil
+		return []sdk.Msg{&distrtypes.MsgWithdrawDelegatorReward{DelegatorAddress: ws, ValidatorAddress: va}}, nil, nil
 	case "setwithdraw":
-		return []sdk.Msg{distrtypes.NewMsgSetWithdrawAddress(who, e.target(c.To))}, nil, nil
+		return []sdk.Msg{&distrtypes.MsgSetWithdrawAddress{DelegatorAddress: ws, WithdrawAddress: r.To}}, nil, nil
+	case "createval":
+		m, err := e.nativeCreate(in, r.CV)
+		if err != nil {
+			return nil, nil, err
+		}
+		return []sdk.Msg{m}, nil, nil
 	case "claim":
 		// claimRewards(delegator, n): withdraw from the first n validators the delegator is bonded to
 		msgs, idx := []sdk.Msg{}, []int{}
@@ -617,9 +678,9 @@ func (e *ssEnv) natives(in ssInput, r ssResolved) ([]sdk.Msg, []int, error) {
 		}
 		return msgs, idx, nil
 	case "commission":
-		return []sdk.Msg{distrtypes.NewMsgWithdrawValidatorCommission(sdk.ValAddress(who))}, nil, nil
+		return []sdk.Msg{&distrtypes.MsgWithdrawValidatorCommission{ValidatorAddress: va}}, nil, nil
 	case "transfer":
-		return []sdk.Msg{transfertypes.NewMsgTransfer("transfer", ssChan(c.Chan), coin, who.String(), "cosmos1receiver0", clienttypes.NewHeight(1, 1000), 0, "")}, nil, nil
+		return []sdk.Msg{transfertypes.NewMsgTransfer("transfer", ssChan(c.Chan), coin, who.String(), ssReceiver(c.Rcv), ssTimeoutHeight(c.Tmo), ssTimeoutStamp(c.Tmo), ssMemo(c.Memo))}, nil, nil
 	}
 	return nil, nil, fmt.Errorf("unknown method %q", c.M)
 }
@@ -801,6 +862,9 @@ func (e *ssEnv) storeDiff(a, b *ssEnv, signer sdk.AccAddress) []ssDiffEntry {
 // of the reward).  The commit then rewrites the signer's bank balance with the mirrored value.
 func ssClass(in ssInput, pre ssSnap, r ssResolved) string {
 	c := in.Call
+	if c.M == "commission" && c.VS == "upper" {
+		return "evm:upper-case-operator-address-panics"
+	}
 	if c.M == "commission" {
 		// candidate finding (not in known_findings.json; see proposed_known_findings_c16.json): the signer's validator has
 		// accumulated a commission that is not zero but truncates to zero coins: the native message succeeds paying nothing,
@@ -840,6 +904,7 @@ type ssRouteObs struct {
 	Bal    string     `json:"bal"`           // the signer's balance
 	Supply string     `json:"supply_delta"`  // change of the total supply
 	NEnt   int        `json:"entries"`       // the signer's unbonding entries at it
+	New    *ssNewVal  `json:"owner_validator,omitempty"` // createval: the validator record of the signer as operator
 }
 
 type ssObs struct {
@@ -861,6 +926,10 @@ func (e *ssEnv) routeObs(in ssInput, ok bool, errStr string, pre ssSnap) ssRoute
 		o.Shares = s.Shares[v]
 		o.NEnt = len(s.Entries[v])
 	}
+	if in.Call.M == "createval" {
+		o.Val, o.Shares, o.NEnt = nil, "", 0
+		o.New = e.ownerVal(in.Signer)
+	}
 	return o
 }
 
@@ -869,7 +938,9 @@ func ssErrClass(s string) string {
 	for _, k := range []string{"insufficient delegation shares", "insufficient funds", "invalid shares amount", "too many unbonding", "too many redelegation",
 		"transitive", "no delegation", "validator does not exist", "no validator", "no unbonding", "invalid delegation amount", "invalid amount", "invalid height",
 		"already processed", "exchange rate", "no delegation distribution info", "no validator commission", "set withdraw address disabled", "not allowed to receive",
-		"channel not found", "self redelegation", "entry not found", "amount is greater", "panic", "invalid coins", "invalid shares"} {
+		"channel not found", "self redelegation", "entry not found", "amount is greater", "panic", "invalid coins", "invalid shares",
+		"commission", "validator already exist", "pubkey", "minimum self delegation", "empty description", "length", "validator address is invalid",
+		"invalid address", "decoding bech32", "invalid delegator", "invalid validator", "invalid receiver", "memo"} {
 		if strings.Contains(s, k) {
 			return strings.ReplaceAll(k, " ", "-")
 		}
@@ -955,11 +1026,58 @@ func ssRunCase(id string, in ssInput) Case {
 	c.Class = ssClass(in, pre, res)
 	c.Nontrivial = okA && okB
 	c.Tags = ssTags(in, pre, res, obs)
+	if in.Call.M == "cancel" && in.Call.HHi {
+		// the precompile was given a creation height that no MsgCancelUnbondingDelegation can carry (int64): there is no
+		// corresponding native message, the property demands nothing; what the precompile did is recorded
+		how := "refused"
+		if okA {
+			how = "accepted"
+			if okB && obs.NDiff == 0 {
+				how = "accepted-as-the-low-64-bits"
+			}
+		}
+		c.OracleOK, c.OracleMsg, c.Class, c.Nontrivial = true, "", "", false
+		c.Tags = append(c.Tags, "cancel:height+2^64:"+how+"-by-precompile")
+		return c
+	}
+	if in.Call.M == "commission" && in.Call.VS == "upper" && !ssDemandUpperCaseOperator {
+		// candidate finding (reported, not in known_findings.json): withdrawValidatorCommission given the operator address in
+		// upper case - a valid bech32 string, the native message is accepted - makes the precompile panic
+		// (precompiles/common HexAddressFromBech32String looks for the lower-case substring "valoper" and otherwise calls
+		// MustAccAddressFromBech32).  Recorded, not demanded, until it is listed or repaired.
+		how := "same-outcome"
+		if okA != okB {
+			how = "precompile-fails-native-succeeds"
+			if okA {
+				how = "precompile-succeeds-native-fails"
+			}
+		}
+		c.OracleOK, c.OracleMsg, c.Class, c.Nontrivial = true, "", "", false
+		c.Tags = append(c.Tags, "commission:upper-case-operator-address:"+how)
+		return c
+	}
+	if in.Call.M == "createval" {
+		hadOwner := ssHadOwner(e, in.Signer)
+		c.Tags = append(c.Tags, ssCreateTags(in, res.CV, hadOwner)...)
+		sort.Strings(c.Tags)
+		c.Coq = ssCoqCreate(pre, res.CV, hadOwner, obs)
+		c.CoqList = "create"
+		return c
+	}
 	if s := ssCoq(in, pre, res, obs); s != "" {
 		c.Coq = s
 		c.CoqList = "stake"
 	}
 	return c
+}
+
+// ssDemandUpperCaseOperator: see ssRunCase; set to true once the deviation is listed in known_findings.json (class
+// evm:upper-case-operator-address-panics) or repaired in /repo
+const ssDemandUpperCaseOperator = false
+
+func ssHadOwner(e *ssEnv, signer int) bool {
+	_, found := e.App.StakingKeeper.GetValidator(e.Ctx, sdk.ValAddress(e.acc[signer]))
+	return found
 }
 
 // ssRestCase: an input inside the known class must not hide anything else.  When both routes succeed, the
@@ -1084,15 +1202,33 @@ func ssTags(in ssInput, pre ssSnap, r ssResolved, obs ssObs) []string {
 	}
 	a := bigOf(r.Amt)
 	switch {
-	case c.M == "withdraw" || c.M == "setwithdraw" || c.M == "claim" || c.M == "commission":
+	case c.M == "withdraw" || c.M == "setwithdraw" || c.M == "claim" || c.M == "commission" || c.M == "createval":
 	case a.Sign() == 0:
 		tags = append(tags, "amt:zero")
 	case a.Cmp(big.NewInt(1000)) <= 0:
 		tags = append(tags, "amt:dust")
 	case a.Cmp(abi.MaxUint256) == 0:
 		tags = append(tags, "amt:max")
+	case a.BitLen() > 63:
+		// from 2^63: an amount that does not fit a 64-bit integer
+		tags = append(tags, "amt:"+ssNumClass(a))
+		if strings.IndexAny(c.Amt, "abcdefghijklmnopqrstuvwxyz") >= 0 {
+			tags = append(tags, "amt:valid-plus-high-bits")
+		}
 	default:
 		tags = append(tags, "amt:"+map[bool]string{true: "symbolic", false: "plain"}[strings.IndexAny(c.Amt, "abcdefghijklmnopqrstuvwxyz") >= 0])
+	}
+	if c.VS != "" {
+		tags = append(tags, "val-arg:"+c.VS)
+	}
+	if c.DS != "" && c.M == "redelegate" {
+		tags = append(tags, "dst-arg:"+c.DS)
+	}
+	if c.ToS != "" && c.M == "setwithdraw" {
+		tags = append(tags, "withdrawer-arg:"+c.ToS)
+	}
+	if c.M == "transfer" && (c.Rcv != "" || c.Memo != "" || c.Tmo != "") {
+		tags = append(tags, "transfer:receiver="+c.Rcv+":memo="+c.Memo+":timeout="+c.Tmo)
 	}
 	if len(obs.ScriptErrs) > 0 {
 		tags = append(tags, "script-op-failed")
@@ -1124,7 +1260,10 @@ func ssCoq(in ssInput, pre ssSnap, r ssResolved, obs ssObs) string {
 	}
 	var pv *ssValSnap
 	sh, nent, rew, oper := "", 0, "0", false
-	if c.Val >= 0 && c.Val < ssNVal {
+	// a validator argument that is not an operator address of this chain names no validator: for the model the
+	// state holds no validator record and no delegation under that name
+	named := c.VS == "" || c.VS == "upper"
+	if c.Val >= 0 && c.Val < ssNVal && named {
 		v := pre.Vals[c.Val]
 		pv = &v
 		sh = pre.Shares[c.Val]
@@ -1141,6 +1280,9 @@ func ssCoq(in ssInput, pre ssSnap, r ssResolved, obs ssObs) string {
 	}
 	sin := fmt.Sprintf("mk_sin %s %s %s %s %s %s %s", ssCoqVal(pv), ssCoqOptZ(sh), coqN(nent), coqN(int(pre.MaxEnt)), coqZ(bigOf(pre.Bal)), coqZ(bigOf(rew)), coqBool(oper))
 	ro := func(o ssRouteObs) string {
+		if !named {
+			return fmt.Sprintf("mk_sout %s None None", coqBool(o.OK))
+		}
 		return fmt.Sprintf("mk_sout %s %s %s", coqBool(o.OK), ssCoqVal(o.Val), ssCoqOptZ(o.Shares))
 	}
 	return fmt.Sprintf("(%s, %s, %s, (%s), (%s))", sin, m, coqZ(bigOf(r.Amt)), ro(obs.Eth), ro(obs.Native))
@@ -1178,7 +1320,25 @@ func ssPick(r *Rng, opts []string, weights []int) string {
 	return opts[0]
 }
 
+// ssCallAmtHi: an amount that needs more than 64 bits: a valid amount of this method with bits set above bit 63 /
+// bit 127 / bit 254, or a bare power of two and its neighbours
+func ssCallAmtHi(r *Rng, m string) string {
+	base := map[string][]string{"delegate": {"bal", "1", "vtok"}, "undelegate": {"all", "all-1", "1"}, "redelegate": {"all", "all-1", "1"},
+		"cancel": {"entry", "1"}, "transfer": {"bal", "1"}}[m]
+	if len(base) == 0 || r.Chance(35) {
+		return ssHuge[r.Intn(len(ssHuge))]
+	}
+	b := base[r.Intn(len(base))]
+	if r.Chance(40) {
+		b = ssAmtStr(r)
+	}
+	return ssHigh(r, b)
+}
+
 func ssCallAmt(r *Rng, m string) string {
+	if r.Chance(9) {
+		return ssCallAmtHi(r, m)
+	}
 	switch m {
 	case "delegate":
 		s := ssPick(r, []string{"plain", "bal", "bal+1", "0", "dust", "max", "vtok"}, []int{55, 5, 8, 5, 15, 4, 8})
@@ -1224,6 +1384,10 @@ func ssRandCall(r *Rng, m string, v int) ssCall {
 	if r.Chance(4) {
 		c.Val = ssNoVal
 	}
+	kinds := []string{"malformed", "foreign", "empty", "acc", "upper", "upper"}
+	if r.Chance(5) && m != "setwithdraw" && m != "claim" && m != "transfer" {
+		c.VS = kinds[r.Intn(len(kinds))]
+	}
 	switch m {
 	case "redelegate":
 		if r.Chance(90) {
@@ -1232,6 +1396,9 @@ func ssRandCall(r *Rng, m string, v int) ssCall {
 		if r.Chance(3) {
 			c.Dst = ssNoVal
 		}
+		if r.Chance(4) {
+			c.DS = kinds[r.Intn(len(kinds))]
+		}
 	case "cancel":
 		c.Entry = r.Intn(3)
 		if r.Chance(20) {
@@ -1239,8 +1406,14 @@ func ssRandCall(r *Rng, m string, v int) ssCall {
 		} else if r.Chance(15) {
 			c.Entry = 3 + r.Intn(5)
 		}
+		if r.Chance(5) {
+			c.HHi = true
+		}
 	case "setwithdraw":
 		c.To = r.Intn(8)
+		if r.Chance(12) {
+			c.ToS = []string{"malformed", "foreign", "empty", "valoper", "upper"}[r.Intn(5)]
+		}
 	case "claim":
 		c.Max = uint32(r.Intn(5))
 		if r.Chance(40) {
@@ -1249,6 +1422,15 @@ func ssRandCall(r *Rng, m string, v int) ssCall {
 	case "transfer":
 		if r.Chance(15) {
 			c.Chan = 1
+		}
+		if r.Chance(8) {
+			c.Rcv = []string{"empty", "long"}[r.Intn(2)]
+		}
+		if r.Chance(4) {
+			c.Memo = "long"
+		}
+		if r.Chance(12) {
+			c.Tmo = []string{"zero", "passed", "max", "stamp"}[r.Intn(4)]
 		}
 	}
 	return c
@@ -1306,6 +1488,9 @@ func ssRandOp(r *Rng, signer int) ssOp {
 const ssUnbondSecs = 22 * 24 * 3600 // longer than the unbonding time (21 days)
 
 func ssGen(r *Rng) ssInput {
+	if r.Chance(14) {
+		return ssGenCreate(r)
+	}
 	in := ssInput{Signer: []int{ssO, ssO, ssO, ssP, ssOp1, ssOp2}[r.Intn(6)]}
 	add := func(ops ...ssOp) { in.Script = append(in.Script, ops...) }
 	next := func() { add(ssOp{Op: "advance", Dt: 5, Dh: 1}) }
